@@ -1061,6 +1061,149 @@ func runC14Sequential(t *fw.T) {
 			}
 		}
 	}
+	// sources whose literals and comments hold bytes that are not UTF-8 (a Latin-1 file, a stray continuation byte, an
+	// encoded surrogate, a character cut off by the closing quote) next to ordinary non-ASCII text: requesting a source
+	// map does not change the generated code, and compiling again repeats it
+	{
+		srcs := []string{
+			"let s = \"caf\xe9\" + 'na\xefve'\nprint(s)",
+			"let t = `r\xe9sum\xe9\n \x80\xbf`; t = 'a\xff\xfeb' // c\xf4t\xe9\nf(t)",
+			"x = \"\xed\xa0\x80\" + '\xc3' + \"\xe2\x82\" + `\xf0\x9f\x98`\n{ y = '\xc0\xaf' }",
+			"let u = 'é漢\U0001F600' + \" \" + ` ÿ`\n// é\nprint(u)",
+		}
+		src := srcs[r.IntN(len(srcs))]
+		bad := false
+		t.Guard("sources with bytes that are not UTF-8", func() map[string]any { return map[string]any{"source": src} }, func() {
+			prog, errs := parseOnly(newBuilder(Mode{}), src)
+			if len(errs) > 0 {
+				t.Count("byte_hostile_sources_not_accepted", 1)
+				return
+			}
+			for _, c := range AllCodeCfgs() {
+				cm := c
+				cm.Map = true
+				plain, again := c.Compile(prog).Code, c.Compile(prog).Code
+				t.Count("compilations_of_sources_with_non_utf8_bytes_compared_with_and_without_source_map", 1)
+				if withMap := cm.Compile(prog).Code; plain != withMap {
+					t.Violate("source-map-changes-code", cfgClass(c)+"/non-UTF-8 bytes", fmt.Sprintf("requesting a source map changes the generated code of a source with non-UTF-8 / non-ASCII bytes in literals: %s", firstDiff(plain, withMap)), map[string]any{"source": src, "config": c.String()})
+					bad = true
+					return
+				}
+				if plain != again {
+					t.Violate("recompilation-differs", cfgClass(c)+"/non-UTF-8 bytes", "compiling the same tree again gives a different result", map[string]any{"source": src, "config": c.String()})
+					bad = true
+					return
+				}
+			}
+			if d, c := debug.ToString(prog), CfgCompact.Compile(prog).Code; d != c {
+				t.Violate("debug-string-differs-from-compact", "program/non-UTF-8 bytes", "debug.ToString(program) differs from the compact compilation: "+firstDiff(c, d), map[string]any{"source": src})
+				bad = true
+			}
+		})
+		if bad {
+			return
+		}
+	}
+	// a transformation pass edits a tree between two compilations by the SAME compiler, and the caller completes the
+	// first result's map in between: the second result is that of a fresh compiler on the edited tree and a map of its own
+	{
+		bad := false
+		c := Cfg{Map: true, Pretty: r.IntN(2) == 0, Spaces: 2}
+		t.Guard("tree edited between two compilations by one compiler", nil, func() {
+			prog, errs := parseOnly(newBuilder(Mode{}), "let total = 1\nf(total + 2)\n")
+			other, _ := parseOnly(newBuilder(Mode{}), "g(3)")
+			if len(errs) > 0 {
+				return
+			}
+			k := c.compiler()
+			r1 := k.Compile(prog)
+			if r1.SourceMap != nil {
+				r1.SourceMap.File, r1.SourceMap.Sources = "first.js", []string{"first.xjs"}
+			}
+			for step := 0; step < 3 && !bad; step++ {
+				switch step {
+				case 0:
+					prog.Statements[0].(*ast.LetStatement).Name.Value = "sum" // a renaming pass
+				case 1:
+					prog.Statements = append(prog.Statements, other.Statements...) // a statement appended
+				case 2:
+					prog.Statements = prog.Statements[1:] // a statement removed
+				}
+				got, want := k.Compile(prog), c.Compile(prog)
+				t.Count("compilations_of_a_tree_edited_since_the_same_compiler_last_compiled_it", 1)
+				same := got.Code == want.Code && (got.SourceMap == nil) == (want.SourceMap == nil)
+				if same && got.SourceMap != nil {
+					same = got.SourceMap.Mappings == want.SourceMap.Mappings && reflect.DeepEqual(got.SourceMap.Names, want.SourceMap.Names)
+				}
+				if !same {
+					t.Violate("reused-compiler-differs", cfgClass(c)+"/tree edited in between", fmt.Sprintf("a Compiler (%s) that compiled a tree before gives, after the tree was edited in place (step %d), a different result than a fresh compiler: %s", c, step, firstDiff(want.Code, got.Code)), map[string]any{"fresh_code": want.Code, "reused_code": got.Code})
+					bad = true
+					return
+				}
+				if got.SourceMap != nil && (got.SourceMap == r1.SourceMap || got.SourceMap.File != "" || len(got.SourceMap.Sources) != 0) {
+					t.Violate("handed-out-result-rewritten", "second compilation of the same program returns the first result's source map", "the caller completed the map of the first compilation (File, Sources); the next compilation of the same program by the same compiler returned a map that carries those fields", nil)
+					bad = true
+					return
+				}
+				if got.SourceMap != nil {
+					got.SourceMap.File = "later.js"
+				}
+			}
+		})
+		if bad {
+			return
+		}
+	}
+	// programs whose compact output is one line of 40-120 KB (thousands of statements, nested blocks, one huge
+	// expression): the debug string is the compact compilation, whatever the size
+	if t.Index%4 == 0 {
+		var sb strings.Builder
+		n := 2500 + r.IntN(4000)
+		switch r.IntN(3) {
+		case 0:
+			for i := 0; i < n; i++ {
+				fmt.Fprintf(&sb, "f(aaaa, %d);", i)
+			}
+		case 1:
+			sb.WriteString("function big() {")
+			for i := 0; i < n; i++ {
+				fmt.Fprintf(&sb, "if (c) { let v%d = %d } ", i, i)
+			}
+			sb.WriteString("}")
+		default:
+			sb.WriteString("let z = 0")
+			for i := 0; i < 4*n; i++ {
+				sb.WriteString(" + a")
+			}
+			sb.WriteString("\nprint(z)\n")
+			for i := 0; i < n; i++ {
+				fmt.Fprintf(&sb, "q%d = %d\n", i, i)
+			}
+		}
+		src := sb.String()
+		bad := false
+		t.Guard("debug string of a large program", nil, func() {
+			prog, errs := parseOnly(newBuilder(Mode{}), src)
+			if len(errs) > 0 {
+				return
+			}
+			d, c := debug.ToString(prog), CfgCompact.Compile(prog).Code
+			t.Count("debug_strings_of_large_programs_compared", 1)
+			t.Feature("size of compact output compared with the debug string (KB)", fmt.Sprint(len(c)/1024/10*10))
+			if d != c {
+				t.Violate("debug-string-differs-from-compact", "program/large", fmt.Sprintf("debug.ToString(program) differs from the compact compilation of a program whose output has %d bytes: %s", len(c), firstDiff(c, d)), map[string]any{"source_prefix": clip(src, 200), "source_bytes": len(src)})
+				bad = true
+				return
+			}
+			if cm := (Cfg{Map: true}).Compile(prog).Code; cm != c {
+				t.Violate("source-map-changes-code", "compact/large", "requesting a source map changes the generated code of a large program: "+firstDiff(c, cm), nil)
+				bad = true
+			}
+		})
+		if bad {
+			return
+		}
+	}
 	checkPackageTables(t)
 	t.Distinct(fmt.Sprint("seq", idxs))
 }
